@@ -198,7 +198,7 @@ def cmd_discover(args):
             print(f"   Suggested merchant: {merchant}")
             print()
             print(f"   {C.DIM}[{merchant}]")
-            print(f"   match: contains(\"{pattern}\")")
+            print(f"   match: regex(\"{_quote_pattern(pattern)}\")")
             print(f"   category: CATEGORY")
             print(f"   subcategory: SUBCATEGORY")
             if stats['has_negative']:
@@ -270,12 +270,17 @@ def suggest_merchant_name(description):
     return 'Unknown'
 
 
+def _quote_pattern(pattern):
+    """Escape a regex so that it survives being read back as a quoted string literal."""
+    return pattern.replace('\\', '\\\\').replace('"', '\\"')
+
+
 def suggest_merchants_rule(merchant_name, pattern, tags=None):
     """Generate a suggested rule block in .rules format."""
-    # Escape quotes in pattern if needed
-    escaped_pattern = pattern.replace('"', '\\"')
+    # suggest_pattern() returns a regular expression (escaped metacharacters, \\s* between words)
+    escaped_pattern = _quote_pattern(pattern)
     rule = f"""[{merchant_name}]
-match: contains("{escaped_pattern}")
+match: regex("{escaped_pattern}")
 category: CATEGORY
 subcategory: SUBCATEGORY"""
     if tags:
